@@ -107,7 +107,7 @@ def judge_c05(r, s):
             if ok and nlv > 0:
                 for k, v in vals.items():
                     got = o["weights"].get(k, Fraction(0))
-                    if abs(got - v / nlv) > Fraction(1, 10**8):
+                    if abs(got - v / nlv) > Fraction(1, 10**8) * max(1, abs(v / nlv)):
                         r.fail("weight-def", op_index=i, op=o["op"], key=k, reported=float(got), expected=float(v / nlv),
                                theorem="weight_def")
 
